@@ -24,6 +24,7 @@ def split_tree(rng, lines, depth=0, counter=None):
     map (file, line) -> original line index)."""
     counter = counter if counter is not None else [0]
     files, mapping = {}, {}
+    taken = {"base.s"}
 
     def build(chunk_idx, name, depth):
         out = []
@@ -32,7 +33,15 @@ def split_tree(rng, lines, depth=0, counter=None):
             if depth < 3 and len(chunk_idx) - i >= 2 and rng.random() < (0.25 if depth else 0.35):
                 n = rng.randrange(1, min(8, len(chunk_idx) - i) + 1)
                 counter[0] += 1
-                child = f"inc{counter[0]}.s"
+                # names that sort before and after "base.s", and names that are a character suffix
+                # of the including file's name (`stdlib.s` including `lib.s`)
+                child = rng.choice(["inc", "inc", "a_inc", "Zinc", "zz"]) + f"{counter[0]}.s"
+                if rng.random() < 0.3:
+                    cands = [name[j:] for j in range(1, len(name) - 2)
+                             if name[j:] not in files and name[j:] not in taken and name[j].isalnum()]
+                    if cands:
+                        child = rng.choice(cands)
+                taken.add(child)
                 build(chunk_idx[i:i + n], child, depth + 1)
                 out.append((f'.include "{child}"', None))
                 i += n
@@ -65,7 +74,7 @@ def diag_keys(blk, order, mapping=None):
                 continue
             line = mapping[(name, line)]
         out.append((unhx(field(l, "title")), field(l, "sev"), line, at["sc"], at["ec"]))
-    return sorted(out)
+    return sorted(out, key=lambda k: (k[0], k[1], str(k[2]), k[3], k[4]))
 
 
 def import_order(files, base="base.s"):
@@ -199,7 +208,7 @@ def run(res, tier, seed):
         for k, v in files.items():
             text = "\n".join(v) + "\n"
             if k == "base.s":
-                text = re.sub(r'\.include "(inc\d+\.s)"', r'.include "sub/\1"', text)
+                text = re.sub(r'\.include "([^"/]+\.s)"', r'.include "sub/\1"', text)
             with open(os.path.join(d, ren[k]), "w") as f:
                 f.write(text)
         with open(os.path.join(d, "flat.s"), "w") as f:
